@@ -862,7 +862,9 @@ func EncryptFRMPayload(key AES128Key, uplink bool, devAddr DevAddr, fCnt uint32,
 	pLen := len(data)
 	if pLen%16 != 0 {
 		// append with empty bytes so that len(data) is a multiple of 16
-		data = append(data, make([]byte, 16-(pLen%16))...)
+		// (the full slice expression makes sure that the spare capacity of the
+		// given slice is not overwritten)
+		data = append(data[0:pLen:pLen], make([]byte, 16-(pLen%16))...)
 	}
 
 	block, err := aes.NewCipher(key[:])
